@@ -349,6 +349,8 @@ class Gen:
             if ls:
                 l = r.choice(ls)
                 m = r.choice(["push", "push", "pop", "push_front", "pop_front", "insert", "remove"])
+                if ctx.get("loop_depth", 0) >= 2 and m in ("push", "push_front", "insert"):
+                    m = "pop"      # growing a list inside nested loops over it blows up exponentially
                 self.features.add("list." + m)
                 if m in ("push", "push_front"):
                     return [f"{l}.{m}({self.expr(T_INT, scopes, d)});"]
@@ -372,7 +374,7 @@ class Gen:
         if c < 0.80 and depth > 0 and self.allow_loops:
             kind = r.choice(["while", "loop", "for-range", "for-list", "for-str"])
             self.features.add(kind)
-            inner = dict(ctx, break_ok=True)
+            inner = dict(ctx, break_ok=True, loop_depth=ctx.get("loop_depth", 0) + 1)
             if kind == "while":
                 cn = self.fresh("c_")
                 scopes[-1][cn] = (T_INT, False)
@@ -402,17 +404,17 @@ class Gen:
             self.features.add("break/continue")
             kw = r.choice(["break", "continue"])
             return [f"if {self.expr(T_BOOL, scopes, 0, pure=True)} {{ {kw}; }}"]
-        if c < 0.88 and not ctx.get("in_try"):
-            self.features.add("return")
+        if c < 0.88:
+            self.features.add("return-in-try" if ctx.get("in_try") else "return")
             rt = ctx.get("ret")
             cond = self.expr(T_BOOL, scopes, 0, pure=True)
             if rt is None:
                 return [f"if {cond} {{ return; }}"]
             return [f"if {cond} {{ return {self.expr(rt, scopes, d, pure=True)}; }}"]
-        if c < 0.93 and depth > 0 and self.allow_throw and not ctx.get("in_try") and ctx.get("try_ok", True):
+        if c < 0.93 and depth > 0 and self.allow_throw and ctx.get("try_ok", True):
             self.features.add("try")
             ev = self.fresh("e")
-            tctx = dict(ctx, in_try=True, break_ok=False)
+            tctx = dict(ctx, in_try=True)
             body = self.block(scopes, d, tctx)
             pos = r.randrange(len(body) + 1)
             if r.random() < 0.7:
@@ -420,11 +422,11 @@ class Gen:
                 self.features.add("throw-caught")
             cbody = [f"println(\"caught\", {ev}.message, {ev}.line, {ev}.column);"] + self.block(scopes, d, tctx, n=1)
             return ["try {"] + ind(body) + [f"}} catch {ev} {{"] + ind(cbody) + ["}"]
-        if c < 0.95 and self.allow_throw and not ctx.get("in_try") and ctx.get("may_throw_ok") and r.random() < 0.3:
+        if c < 0.95 and self.allow_throw and (ctx.get("in_try") or ctx.get("may_throw_ok")) and r.random() < 0.3:
             self.features.add("throw-uncaught")
             return [f"if {self.expr(T_BOOL, scopes, 0, pure=True)} {{ throw(\"fatal \" + {self.atom(T_STR, scopes)}); }}"]
         # call statement
-        cand = [f for f in self.fns if not f.may_throw or (ctx.get("may_throw_ok") and not ctx.get("in_try"))]
+        cand = [f for f in self.fns if not f.may_throw or ctx.get("may_throw_ok") or ctx.get("in_try")]
         if cand:
             self.features.add("call-stmt")
             f = r.choice(cand)
